@@ -225,6 +225,12 @@ class GaussianKDE(DensityEstimator):
         else:  # else just use the entire range of the samples
             lwr, upr = self.sample[0], self.sample[-1]
 
+        # the estimate can have several local maxima inside these bounds, so scan
+        # them first and refine around the best point of the scan
+        grid = linspace(lwr, upr, 65)
+        i = argmax(self(grid))
+        lwr, upr = grid[max(i - 1, 0)], grid[min(i + 1, grid.size - 1)]
+
         # search in terms of the offset from the lower bound, as the bounded
         # optimiser's termination test is relative to the size of its argument
         result = minimize_scalar(
